@@ -298,6 +298,66 @@ theorem write_frame_top (E : Env) (fs : Fs) {p : Bytes} {q : Loc} (h : locOf p =
           rw [hpp] at h3
           exact (properPrefixes_eq q.comps x).mp h3
 
+/-- **When a write succeeds.** For a path of the domain whose payload can be encoded, the write
+reports success exactly when the specification says the top layer can take the file: the path
+names a file position (not the root, no trailing slash), no ancestor is a regular file in the top
+layer, and the position is not a directory there.  Lower layers play no role. -/
+theorem write_succeeds_iff (E : Env) (fs : Fs) {p : Bytes} {q : Loc} (h : locOf p = some q) (b s : Bytes)
+    (top : Layer) (htop : fs.layers.getLast? = some top) (henc : encoded E fs p b = .ok s) :
+    (fs.write E p b false).2 = .ok () ↔ writable (walkOf top) q = true := by
+  have hne : fs.layers ≠ [] := by intro e; simp [e] at htop
+  rw [write_unfold]
+  simp only [Fs.actualPath, Bool.false_eq_true, if_false, henc]
+  rcases writeAt_cases fs p s with ⟨he, _⟩ | ⟨top0, htop0, _, hok⟩
+  · exact absurd he hne
+  · have : top0 = top := by rw [htop] at htop0; exact (Option.some.inj htop0).symm
+    subst this
+    rw [hok, Layer.write_ok_iff, parsePath_of_locOf h]
+    unfold writable
+    simp only [Bool.and_eq_true, Bool.not_eq_true', List.isEmpty_eq_false_iff, List.all_eq_true,
+      decide_eq_true_eq, notFile_walkOf, ne_eq, at_dir_iff]
+    constructor
+    · rintro ⟨h1, h2, h3, h4⟩
+      refine ⟨⟨⟨h3, h2⟩, ?_⟩, h4⟩
+      intro a ha
+      exact h1 a ((properPrefixes_eq q.comps a).mpr ha)
+    · rintro ⟨⟨⟨h3, h2⟩, h1⟩, h4⟩
+      refine ⟨?_, h2, h3, h4⟩
+      intro a ha
+      exact h1 a ((properPrefixes_eq q.comps a).mp ha)
+
+/-- **When `create_dir` succeeds**: exactly when no component on the way (the path itself
+included) is a regular file in the top layer. -/
+theorem createDir_succeeds_iff (fs : Fs) {p : Bytes} {q : Loc} (h : locOf p = some q)
+    (top : Layer) (htop : fs.layers.getLast? = some top) :
+    (fs.createDir p false).2 = .ok () ↔ dirCreatable (walkOf top) q = true := by
+  have hlhs : (fs.createDir p false).2 = .ok () ↔ (top.createDir p).2 = .ok () := by
+    unfold Fs.createDir Fs.actualPath
+    simp only [Bool.false_eq_true, if_false, htop]
+    generalize top.createDir p = r
+    obtain ⟨t, o⟩ := r
+    cases o with
+    | ok u => cases u; simp
+    | err e => simp
+    | panic => simp
+  rw [hlhs, Layer.createDir_ok_iff, parsePath_of_locOf h]
+  unfold dirCreatable
+  simp only [List.all_eq_true, notFile_walkOf, Bool.not_eq_true', List.mem_append, List.mem_singleton]
+  constructor
+  · intro h1 a ha
+    rcases ha with ha | ha
+    · exact h1 a (mem_prefixes.mpr ⟨(mem_properPrefixes.mp ha).1, (mem_properPrefixes.mp ha).2.1⟩)
+    · subst ha
+      by_cases hc : q.comps = []
+      · rw [hc]; simp [Layer.isFileNode]
+      · exact h1 q.comps (mem_prefixes.mpr ⟨hc, List.prefix_refl _⟩)
+  · intro h1 a ha
+    obtain ⟨hne', hp⟩ := mem_prefixes.mp ha
+    by_cases hl : a.length < q.comps.length
+    · exact h1 a (Or.inl (mem_properPrefixes.mpr ⟨hne', hp, hl⟩))
+    · have : a = q.comps := hp.eq_of_length (by have := hp.length_le; omega)
+      exact h1 a (Or.inr this)
+
 /-- The LZ round trip the filesystem relies on for compressed suffixes: properties C08/C09 (the
 compressor's output decodes to its input) and C11 (the decoder), proved in their own modules. -/
 def LzRoundTrip (z : Lz) : Prop := ∀ b c, z.compress b = .ok c → z.decompress c = .ok b
